@@ -41,6 +41,26 @@ pub fn search(rng: &mut Rng, budget: u64, fails: &mut Vec<Failure>) {
             if fails.len() >= 5 { return; }
         }
     }
+    // strings through the convenience layer: every disambiguation and offset option reaches the core unchanged
+    for text in ["2020-03-08T02:30[America/Los_Angeles]", "2020-11-01T01:30[America/Los_Angeles]", "2021-06-01T12:00[America/New_York]", "2020-11-01T01:30-08:00[America/Los_Angeles]", "2020-11-01T01:30-05:00[America/Los_Angeles]", "2020-03-08T02:30Z[America/Los_Angeles]"] {
+        for dis in [Disambiguation::Compatible, Disambiguation::Earlier, Disambiguation::Later, Disambiguation::Reject] {
+            for off in [temporal_rs::options::OffsetDisambiguation::Use, temporal_rs::options::OffsetDisambiguation::Ignore, temporal_rs::options::OffsetDisambiguation::Prefer, temporal_rs::options::OffsetDisambiguation::Reject] {
+                let a = catch_unwind(|| ZonedDateTime::from_str(text, dis, off).map(|z| z.epoch_nanoseconds().as_i128()));
+                let b = catch_unwind(std::panic::AssertUnwindSafe(|| ZonedDateTime::from_str_with_provider(text, dis, off, &provider).map(|z| z.epoch_nanoseconds().as_i128())));
+                let same = match (&a, &b) { (Ok(Ok(x)), Ok(Ok(y))) => x == y, (Ok(Err(_)), Ok(Err(_))) => true, (Err(_), Err(_)) => true, _ => false };
+                if !same { fails.push(Failure { what: "ZonedDateTime::from_str != from_str_with_provider".into(), input: format!("{text} disambiguation={dis:?} offset={off:?}"), expected: format!("{:?}", b.map(|r| r.ok())), observed: format!("{:?}", a.map(|r| r.ok())) }); }
+                if fails.len() >= 5 { return; }
+            }
+        }
+    }
+    // Display = the string form with every option auto (non-ISO calendars print their annotation)
+    for cal in ["iso8601", "japanese", "gregory", "hebrew"] {
+        let (Ok(c), Ok(tz)) = (cal.parse::<Calendar>(), TimeZone::try_from_str("UTC")) else { continue };
+        let Ok(z) = ZonedDateTime::try_new(1_701_308_952_000_000_000, c, tz) else { continue };
+        let a = catch_unwind(|| format!("{z}"));
+        let b = catch_unwind(std::panic::AssertUnwindSafe(|| z.to_string_with_provider(&provider)));
+        if let (Ok(a), Ok(Ok(b))) = (a, b) { if a != b { fails.push(Failure { what: "Display for ZonedDateTime != to_string_with_provider".into(), input: format!("calendar={cal}"), expected: b, observed: a }); } }
+    }
     for k in 0..(budget / 200).max(20) {
         let ns = if k == 0 { 1_701_308_952_123_456_789i128 } else { rng.range(-4_000_000_000_000_000_000, 4_000_000_000_000_000_000) };
         for tzs in ["UTC", "+05:30", "America/New_York"] {
